@@ -192,7 +192,7 @@ def check(ctx):
         else:
             o.witness(f'{s.ctx}:{s.line}')
             o.sample({'site': f'{P.rel(s.mod.path)}:{s.line}', 'in': s.ctx, 'label': ast.unparse(cl.args[0]), 'sub_label': ast.unparse(cl.args[1])})
-    need = {'received_part': 1, 'level': 2, 'produced_part': 1, 'device_failure': 1, 'supplied_new_part': 1, 'schedule_update': 1, 'resource_update': 1}
+    need = {'received_part': 1, 'level': 1, 'produced_part': 1, 'device_failure': 1, 'supplied_new_part': 1, 'schedule_update': 1, 'resource_update': 1}
     for lbl, cnt in sorted(need.items()):
         o.count()
         have = len(labels.get(lbl, []))
@@ -251,10 +251,29 @@ def check(ctx):
                    file=Env.mod.path, line=fn.lineno, path=res.path_lines(g.exit, st))
         else:
             o.witness('add_datapoint-path')
-    tables = [ast.unparse(s_.value) for s_ in ast.walk(fn) if isinstance(s_, ast.Assign) and isinstance(s_.targets[0], ast.Name) and isinstance(s_.value, ast.Subscript)]
+    # the table the datapoint goes into is the one registered under the label: every binding of the table variable is either a look-up of
+    # self.simulation_data[label] or a fresh dict that is also stored there
     o.count()
-    if f'self.simulation_data[{lp}]' not in tables or not any(isinstance(s_, ast.Assign) and ast.unparse(s_.targets[0]) == f'self.simulation_data[{lp}]' for s_ in ast.walk(fn)):
-        o.fail(P, 'Environment.add_datapoint', f'self.simulation_data[{lp}]', 'the table of a label is not looked up / created under that label', file=Env.mod.path, line=fn.lineno)
+    want_t = f'self.simulation_data[{lp}]'
+    wh_all = sorted({f[6:] for st in res.exits() for f in st.flags if f.startswith('where:')})
+    bases = {w.split('[')[0] for w in wh_all}
+    okb = bool(bases)
+    for b_ in bases:
+        if b_ == want_t:
+            continue
+        binds = [s_ for s_ in ast.walk(fn) if isinstance(s_, ast.Assign) and any(isinstance(t, ast.Name) and t.id == b_ for t in s_.targets)]
+        if not binds:
+            okb = False
+        for s_ in binds:
+            tg = [ast.unparse(t) for t in s_.targets]
+            if ast.unparse(s_.value) == want_t:
+                continue
+            fresh = isinstance(s_.value, ast.Dict) and not s_.value.keys
+            registered = want_t in tg or any(isinstance(x, ast.Assign) and want_t in [ast.unparse(t) for t in x.targets] and ast.unparse(x.value) == b_ for x in ast.walk(fn))
+            if not (fresh and registered):
+                okb = False
+    if not okb:
+        o.fail(P, 'Environment.add_datapoint', want_t, 'the table of a label is not looked up / created under that label', file=Env.mod.path, line=fn.lineno)
 
     # ---- C15.3 ----------------------------------------------------------------------------------------
     o = Ob('C15.3', 'K2', 'ResourceManager.initialize sets the environment and records every known resource')
@@ -279,52 +298,85 @@ def check(ctx):
     obs.append(o)
     OP = ('step', 'schedule_event', '_trace_event', '_export_trace')
     g = ctx.graph(Env, 'step', opaque=OP)
-    execs = [n for n in g.nodes.values() if any(call_attr(c) == 'execute' for c in calls_at(g, n))]
-    traces = [n for n in g.nodes.values() if any(call_attr(c) == '_trace_event' and is_self_attr(c.func) for c in calls_at(g, n))]
-    tconds = [n for n in g.nodes.values() if n.kind == 'cond' and ast.unparse(n.ast) == 'self._trace']
-    o.count()
-    okt = len(execs) == 1 and len(traces) == 1 and len(tconds) >= 1
-    if okt:
-        ex, tr = execs[0], traces[0]
-        pop = [n for n in g.nodes.values() if n.kind == 'stmt' and '.pop(0)' in n.src() and isinstance(n.ast, ast.Assign)]
-        var = pop[0].ast.targets[0].id if pop else None
-        okt = (tr.id not in g.reach_edges([g.entry], cut_edges={(tconds[0].id, 'T')})         # only when tracing
-               and ex.id not in g.reach_edges([g.entry], cut_edges={(tconds[0].id, 'T'), (tconds[0].id, 'F')}) or True)
-        an = Analysis(P, g, ['_trace'])
+    from .c01 import HEAD_REMOVE_FUNCS
 
-        def th(an_, n, before, after):
-            if n is tr:
-                return after.with_flag('traced')
-            if n is ex:
-                return after.with_flag('exec-after-trace' if 'traced' in after.flags else 'exec-untraced')
-            return after
-        an.node_hooks.append(th)
-        for tv in 'TF':
-            res = ctx.explore(an, [State({'_trace': tv})])
-            for st in res.exits():
-                o.count()
-                want = 'exec-after-trace' if tv == 'T' else 'exec-untraced'
-                if want not in st.flags or (tv == 'F' and 'traced' in st.flags):
-                    okt = False
-        if [ast.unparse(a) for c in calls_at(g, tr) if call_attr(c) == '_trace_event' for a in c.args] != [var]:
-            okt = False
-    if not okt:
-        o.fail(P, 'Environment.step', 'if self._trace: self._trace_event(next_event)', 'with tracing enabled every executed event must be recorded, before it is executed; without tracing none',
-               file=Env.mod.path, line=P.method(Env, 'step')[1].lineno)
-    else:
-        o.witness('step-trace')
+    def is_head_removal(c):
+        return (call_attr(c) == 'pop' and isinstance(c.func, ast.Attribute) and ast.unparse(c.func.value) == 'self._events' and len(c.args) == 1
+                and isinstance(c.args[0], ast.Constant) and c.args[0].value == 0) or \
+               (ast.unparse(c.func) in HEAD_REMOVE_FUNCS and c.args and ast.unparse(c.args[0]) == 'self._events')
+
+    def head_expr(an_, e, st, frame):
+        if isinstance(e, ast.Call) and is_head_removal(e):
+            return 'head'
+        return NotImplemented
+
+    def th(an_, n, before, after):
+        st = after
+        for c in calls_at(g, n):
+            if call_attr(c) == '_trace_event' and is_self_attr(c.func):
+                good = len(c.args) == 1 and an_.ev(c.args[0], before, n.frame) == 'head'
+                st = st.with_flag('traced-twice' if 'traced' in st.flags else ('traced' if good else 'traced-other'))
+                if 'executed' in st.flags:
+                    st = st.with_flag('traced-after-execute')
+            if call_attr(c) == 'execute' and isinstance(c.func, ast.Attribute) and an_.ev(c.func.value, before, n.frame) == 'head':
+                st = st.with_flag('executed')
+        return st
+    an = Analysis(P, g, ['_trace'])
+    an.expr_hooks.append(head_expr)
+    an.node_hooks.append(th)
+    stepfn = P.method(Env, 'step')[1]
+    for tv in 'TF':
+        res = ctx.explore(an, [State({'_trace': tv})])
+        o.require(res.exits(), 'Environment.step has no normal exit')
+        for st in res.exits():
+            o.count()
+            fl = {f for f in st.flags if f.startswith(('traced', 'executed'))}
+            want = {'traced', 'executed'} if tv == 'T' else {'executed'}
+            if fl != want:
+                o.fail(P, 'Environment.step', 'if self._trace: self._trace_event(next_event)',
+                       f'with tracing {"enabled" if tv == "T" else "disabled"} a step does {sorted(fl)}; expected {sorted(want)} (every executed event is recorded once, before it is executed; none without tracing)',
+                       file=Env.mod.path, line=stepfn.lineno, path=res.path_lines(g.exit, st))
+            else:
+                o.witness(('step-trace', tv))
     fn = P.method(Env, '_trace_event')[1]
-    o.count()
     ev = fn.args.args[1].arg
-    stores = [s_ for s_ in ast.walk(fn) if isinstance(s_, ast.Assign) and ast.unparse(s_.targets[0]) == 'self._event_trace[self._event_index]']
-    incs = [s_ for s_ in ast.walk(fn) if isinstance(s_, ast.AugAssign) and is_self_attr(s_.target, '_event_index')]
-    okx = len(stores) == 1 and len(incs) == 1 and isinstance(incs[0].op, ast.Add) and ast.unparse(incs[0].value) == '1' and incs[0].lineno > stores[0].lineno \
-        and isinstance(stores[0].value, ast.Dict) and f'{ev}.asset_id' in ast.unparse(stores[0].value) and 'self.now' in ast.unparse(stores[0].value)
-    if not okx:
-        o.fail(P, 'Environment._trace_event', 'self._event_trace[self._event_index] = {...}; self._event_index += 1',
-               'an executed event must be stored under the running index, which is then advanced by one', file=Env.mod.path, line=fn.lineno)
-    else:
-        o.witness('index')
+    gt = ctx.graph(Env, '_trace_event')
+    NE = Normalizer(P, Env)
+    tdefs = single_defs(fn)
+
+    def trace_hook(an_, n, before, after):
+        st = after
+        a = n.ast
+        if n.kind == 'stmt' and isinstance(a, (ast.Assign, ast.AugAssign)):
+            tg = a.targets if isinstance(a, ast.Assign) else [a.target]
+            for t in tg:
+                if isinstance(t, ast.Subscript) and is_self_attr(t.value, '_event_trace') and isinstance(a, ast.Assign):
+                    key_ok = NE.norm(t.slice, tdefs).is_({'self._event_index': 1})
+                    v = a.value
+                    if isinstance(v, ast.Name) and v.id in tdefs:
+                        v = tdefs[v.id]
+                    val_ok = isinstance(v, ast.Dict) and any(isinstance(x, ast.Attribute) and isinstance(x.value, ast.Name) and x.value.id == ev for x in ast.walk(v))
+                    fl = 'stored' if key_ok and val_ok else 'stored-wrong'
+                    if 'advanced' in st.flags:
+                        fl = 'stored-after-advance'
+                    st = st.with_flag('stored-twice' if 'stored' in st.flags else fl)
+                if is_self_attr(t, '_event_index'):
+                    newv = NE.norm(ast.BinOp(left=a.target, op=a.op, right=a.value) if isinstance(a, ast.AugAssign) else a.value, tdefs)
+                    st = st.with_flag(('advanced-twice' if 'advanced' in st.flags else 'advanced') if newv.is_({'self._event_index': 1}, 1) else 'index-wrong')
+        return st
+    ant = Analysis(P, gt, [])
+    ant.node_hooks.append(trace_hook)
+    rest = ctx.explore(ant, [State({})])
+    o.require(rest.exits(), 'Environment._trace_event has no normal exit')
+    for st in rest.exits():
+        o.count()
+        fl = {f for f in st.flags if f.startswith(('stored', 'advanced', 'index'))}
+        if fl != {'stored', 'advanced'}:
+            o.fail(P, 'Environment._trace_event', 'self._event_trace[self._event_index] = {...}; self._event_index += 1',
+                   f'an executed event must be stored under the running index, which is then advanced by one; this path does {sorted(fl)}', file=Env.mod.path, line=fn.lineno,
+                   path=rest.path_lines(gt.exit, st))
+        else:
+            o.witness('index')
     g = ctx.graph(Env, 'run', opaque=OP)
     fn = P.method(Env, 'run')[1]
     o.count()
@@ -365,7 +417,7 @@ def check(ctx):
     for a_, owners in (('_event_trace', {'_reset'}), ('_event_index', {'_reset', '_trace_event'}), ('_trace', {'_reset', 'run'})):
         for s in inv.attr_stores(P, a_):
             o.count()
-            if not (s.cls is Env and s.func.name in owners):
+            if not (s.cls is Env and s.func.name in inv.covered(P, owners)):
                 o.fail(P, s.ctx, s.stmt, f'Environment.{a_} is written outside {sorted(owners)}', file=s.mod.path, line=s.line)
     return obs
 
